@@ -154,6 +154,7 @@ def wf_family(prop, tier):
         out.append("{ EA = RsV; RdV = " + " + ".join(["(int32_t)mem_load_u8(EA)"] * min(n, 4)) + "; }")
         out.append("{ RdV = " + " | ".join(["P0"] * n) + "; }")
         out.append("{ RdV = " + " + ".join(["HEX_REG_ALIAS_SP"] * n) + "; }")
+    out += mixed(tier, 2500 if tier == "thorough" else 200, salt=10, stmt_expr=False)
     return list(dict.fromkeys(out))
 
 
@@ -170,6 +171,7 @@ def layout_family(tier):
     out += [p for p in c09(tier) if "?" in p][:: (1 if tier == "thorough" else 4)]
     out += c05_random(tier, rng)
     out += c07(tier)[:: (1 if tier == "thorough" else 5)]
+    out += mixed(tier, 2000 if tier == "thorough" else 150, salt=16)
     return list(dict.fromkeys(out))
 
 
@@ -204,6 +206,9 @@ def c03(tier):
         out.append(f"{{ {d} RddV = a; }}")                              # 64-bit register
         out.append(f"{{ {d} PdV = a; }}")                               # predicate register
         out.append(f"{{ {d} RxV = a; }}")
+        for al in ("UTIMER", "PKTCOUNT", "UPCYCLE", "LR"):
+            out.append(f"{{ {d} HEX_REG_ALIAS_{al} = a; }}")
+            out.append(f"{{ {d} HEX_REG_ALIAS_{al} = a; RddV = HEX_REG_ALIAS_{al}; }}")
         out.append(f"{{ {d} RddV = extract64(a, 4, 8); }}")             # argument of a bit-field macro (uint64_t)
         out.append(f"{{ {d} RddV = sextract64(a, 0, 16); }}")
         out.append(f"{{ {d} RdV = extract32(a, 3, 7); }}")
@@ -550,6 +555,13 @@ def c08(tier):
         out.append(f"{{ {C08_PRE} int32_t r1 = {c}; int32_t r2 = clz32(m); RyV = r1 - r2; {C08_POST} }}")
         out.append(f"{{ {C08_PRE} if ({c} > 3) {{ RyV = {c}; }} {C08_POST} }}")
         out.append(f"{{ {C08_PRE} RyV = {c} + {c}; {C08_POST} }}")
+    # a call nested in the argument list of a plugin macro is still a call of its own statement: its arguments have
+    # the values of that moment (the locals are re-assigned just before)
+    for c in ("vf_br(n, m)", "vf_post(n)", "clz32(n)", "vf_nest(n)", "vf_wide(n, m)", "vf_narrow(m)"):
+        for mac in (f"extract32({c}, 4, 8)", f"deposit32(n, 4, 8, {c})", f"bswap32({c})", f"sextract64({c}, 3, 9)",
+                    f"extract64({c}, 0, 33)", f"bswap16({c})", f"deposit64(m, 8, 16, {c})"):
+            out.append(f"{{ {C08_PRE} n = n + 3; m = m ^ n; RyV = {mac}; {C08_POST} }}")
+            out.append(f"{{ {C08_PRE} n = n + 3; RxxV = {mac} + clz32(n); n = 0; {C08_POST} }}")
     # seeded part: sub-routines with an open finding (early return, colliding local) are kept out of it
     ok = [c for c in C08_CALLS if not c.startswith(("vf_early", "vf_loc"))]
     pairs = list(itertools.product(ok, ok))
@@ -636,6 +648,13 @@ def c09(tier):
         out.append(f"{{ {pre} RdV = 0 ? {dead} : {live}; RxV = n + q + RtV; }}")
         out.append(f"{{ {pre} RdV = (2 > 1) ? {live} : {dead}; RxV = n + q + RuV; }}")
         out.append(f"{{ {pre} RdV = (1 == 0 ? {dead} : {live}); RxV = n * 3 + RuV; }}")
+    hy = ["clz32(RsV)", "clo32(RtV)", "n++", "({ n = n + 3; n; })", "revbit32(RuV)"]
+    for h1, h2, h3 in itertools.product(hy[:3], hy[1:4], hy[2:]):
+        if len({h1, h2, h3}) < 3 or sum("n" in h.replace("revbit", "") for h in (h1, h2, h3)) > 1:
+            continue
+        for c in ("0", "1", "(2 > 3)"):
+            out.append(f"{{ int32_t n = RvV; RdV = ({c} ? {h1} : {h2}) + {h3}; RxV = n; }}")
+            out.append(f"{{ int32_t n = RvV; RdV = {h3} + ({c} ? {h1} : {h2}); RxV = n; }}")
     for t in ["int8_t", "uint16_t", "int32_t", "uint64_t", "int", "unsigned int"]:
         out.append(f"{{ RddV = sizeof({t}); }}")
         out.append(f"{{ {t} v = RsV; RddV = sizeof(v); }}")
@@ -752,4 +771,120 @@ def c17(tier):
             "{ RxV=RsV<<RtV; }", "{ RxV=RsV<RtV; }", "{ RxV=RsV<=RtV; }", "{ RxV=RsV<<1<=RtV; }", "{ RxV=RsV>>1>=RtV; }",
             "{ RxV=RsV>RtV>>1; }", "{ RxV = RsV --- RtV; }" if False else "{ RxV = RsV - - - RtV; }", "{ RxV = RsV++ + RtV; }",
             "{ RxV = RsV+ +RtV; }", "{ RxV = 0x10+RsV; }", "{ RxV = 0x1f&RsV; }", "{ RxV = 10U+RsV; }", "{ RxV = 1LL<<RsV; }"]
+    return out
+
+
+# ------------------------------------------------------------------------------------------ mixed
+MIX_REGS32 = ["RwV", "RxV", "siV", "UiV", "PyV"]  # letters s,t,u,v belong to the locals (single or pair)
+
+
+class Mixed:
+    """Typed random programs that combine the constructs of all families in one body: locals of all eight types,
+    conversions, every operator class, branches, bounded loops, memory, calls, macros, postfix operators and
+    statement-expressions at statement level.  Constructs with an OPEN finding are kept out (value-producing side effects behind
+    && || ?:, constant-only subtrees, signed division, chained assignment, early return), so that a violation reported on a
+    mixed program is a new one."""
+
+    def __init__(self, rng, stmt_expr=True, calls=()):
+        self.rng = rng
+        self.calls = list(calls)  # (name, arity) of sub-routines registered through the public API
+        self.stmt_expr = stmt_expr  # F20 (statement of a statement-expression rendered twice) is an open C12/C15 finding
+
+    def expr(self, depth, vars_):
+        rng = self.rng
+        if depth == 0 or rng.random() < 0.18:
+            return rng.choice(vars_ + (MIX_REGS32 if rng.random() < 0.3 else []))
+        r = rng.random()
+        sub = lambda: self.expr(depth - 1, vars_)  # noqa
+        if r < 0.10:
+            return f"({rng.choice(['~', '-', '!'])}{sub()})"
+        if r < 0.24:
+            return f"(({rng.choice(TNAME)}){sub()})"
+        if r < 0.32:
+            return f"(({sub()} {rng.choice(CMP)} {sub()}) ? {sub()} : {sub()})"
+        if r < 0.40:
+            return f"({sub()} {rng.choice(LOGIC)} {sub()})"
+        if r < 0.52:
+            cnt = rng.choice(["1", "3", "7", "8", "15", "31", f"({rng.choice(vars_)} & 7)", f"({rng.choice(vars_)} & 31)"])
+            return f"({sub()} {rng.choice(SHIFT)} {cnt})"
+        if r < 0.62:
+            return f"({sub()} {rng.choice(CMP)} {sub()})"
+        if r < 0.70:
+            return f"({sub()} * {rng.choice(['3', '5', '-7', '0x11', '2U', '9LL'])})"
+        op = rng.choice(["+", "-", "&", "|", "^"])
+        if rng.random() < 0.25:
+            return f"({sub()} {op} {rng.choice(['1', '0x7f', '255', '0x10', '100U', '0xffffLL', '65535', '-1'])})"
+        return f"({sub()} {op} {sub()})"
+
+    def stmt(self, depth, vars_, loopv):
+        rng = self.rng
+        r = rng.random()
+        v = rng.choice(vars_)
+        e = lambda d=2: self.expr(rng.choice([1, d]), vars_)  # noqa
+        if depth == 0 or r < 0.30:
+            return f"{v} = {e(3)};"
+        if r < 0.42:
+            op = rng.choice(['+=', '-=', '*=', '<<=', '>>=', '&=', '^=', '|='])
+            if op in ("<<=", ">>="):
+                return f"{v} {op} {rng.choice(['1', '3', '5', '7', f'({rng.choice(vars_)} & 7)'])};"
+            return f"{v} {op} {e() if rng.random() < 0.7 else rng.choice(['1', '3', '5'])};"
+        if r < 0.52:
+            body = self.block(depth - 1, vars_, loopv)
+            if rng.random() < 0.5:
+                return f"if ({e()}) {{ {body} }}"
+            return f"if ({e()}) {{ {body} }} else {{ {self.block(depth - 1, vars_, loopv)} }}"
+        if r < 0.58 and loopv:
+            lv = loopv[0]
+            return f"for ({lv} = 0; {lv} < {rng.choice(['1', '2', '3'])}; {lv}++) {{ {self.block(depth - 1, vars_ , loopv[1:])} }}"
+        if r < 0.66:
+            w = rng.choice(["8", "16", "32", "64"])
+            return f"EA = RwV + {rng.choice(['0', '1', '4', '8'])}; mem_store_u{w}(EA, {e()});"
+        if r < 0.72:
+            w = rng.choice(["u8", "s8", "u16", "s16", "u32", "s32", "u64", "s64"])
+            return f"EA = RxV + {rng.choice(['0', '2', '4'])}; {v} = mem_load_{w}(EA);"
+        if r < 0.80:
+            h = rng.choice([f"clz32({e()})", f"clo32({e()})", f"revbit32({e()})", f"fbrev({e()})", f"conv_round({e()}, 2)",
+                            f"extract32({e()}, 3, 9)", f"sextract64({e()}, 2, 13)", f"deposit32({e()}, 4, 8, {e()})", f"bswap32({e()})",
+                            f"extract64({e()}, 5, 40)"])
+            if self.calls and rng.random() < 0.7:
+                name, ar = rng.choice(self.calls)
+                h = f"{name}({', '.join(e() for _ in range(ar))})"
+                if rng.random() < 0.3:
+                    n2, a2 = rng.choice(self.calls)
+                    h = f"{h} {rng.choice(['+', '-', '^'])} {n2}({', '.join(e() for _ in range(a2))})"
+            return f"{v} = {h};" if rng.random() < 0.6 else f"{v} = {h} + {rng.choice(vars_)};"
+        if r < 0.87:
+            w = rng.choice(vars_)
+            return rng.choice([f"{w}++;", f"{w}--;", f"{v} = {w}++;", f"{v} = {w}--;"]) if w != v else f"{w}++;"
+        if r < 0.92 and self.stmt_expr:
+            w = rng.choice(vars_)
+            return f"{v} = ({{ {w} = {e()}; {w} + 1; }});" if w != v else f"{v} = {e()};"
+        if r < 0.96:
+            return f"PeV = {e()};"
+        return f"{{ {self.block(depth - 1, vars_, loopv)} }}"
+
+    def block(self, depth, vars_, loopv):
+        return " ".join(self.stmt(depth, vars_, loopv) for _ in range(self.rng.choice([1, 2, 2, 3])))
+
+    def program(self):
+        rng = self.rng
+        names = ["a", "b", "c", "d"][:rng.choice([2, 3, 3, 4])]
+        ds = []
+        for n_, l in zip(names, "stuv"):
+            t = rng.choice(TYPES)
+            ds.append(decl(t[0], t[1], n_, l))
+        body = self.block(rng.choice([1, 2, 2, 3]), names, ["i", "j"])
+        obs = "RddV = " + " + ".join(f"((int64_t){n_} * {k})" for n_, k in zip(names, (1, 3, 5, 7))) + ";"
+        return f"{{ {' '.join(ds)} int i; int j; {body} {obs} }}"
+
+
+def mixed(tier, n=None, salt=77, stmt_expr=True, calls=()):
+    rng = random.Random(seed() * 7919 + salt)
+    g = Mixed(rng, stmt_expr, calls)
+    n = n if n is not None else (3000 if tier == "thorough" else 150)
+    out = []
+    while len(out) < n:
+        p = g.program()
+        if len(p) <= 420:
+            out.append(p)
     return out
